@@ -146,7 +146,7 @@ def run_binary_more(ctx):
                ("Q", w(rng.randrange(1, 4))), ("U", w(rng.randrange(1, 4)) + b"\x03"), ("BOOL", True),
                ("RGB", (int.from_bytes(w(2), "little"), 4, 3) + ((int.from_bytes(w(2), "little"),) if rng.random() < 0.5 else ()))]
         rng.shuffle(pay)
-        toks = [("O",)] + pay[:5] + [("O",)] + pay[5:] + [("C",), ("C",), ("T", 11), ("O",), ("C",), ("T", 12)]
+        toks = [("O",)] + pay[:5] + [("O",)] + pay[5:] + [("C",), ("C",), ("T", 0x2d28), ("O",), ("C",), ("T", 0x1234)]
         docs.append(b"".join(B.enc(t) for t in toks))
     tc = ["bl.lops\t%s\tT" % hexs(d) for d in docs]
     timpl, _ = ctx.correspond("tokens_more", tc, nontrivial=lambda c, i: " " in i)
